@@ -36,7 +36,8 @@ def rule_menu():
         ("ccXor(a,b)", ccXor("ab")), ("ccXor(a,b|a)", ccXor("ab", "a")), ("ccXor(a,b|b)", ccXor("ab", "b")),
         ("ccXor(a,b,c|b)", ccXor("abc", "b")), ("ccXor(x,y,z|z)", ccXor("xyz", "z")),
         ("Any(a,b)", C('Any', None, it("a", "b"))), ("Xor(x,y)", C('Xor', None, it("x", "y"))),
-        ("AtMost1(a,b,c)", C('AtMost', None, it("a", "b", "c"), 1)), ("AtMost2(x,y,z)", C('AtMost', None, it("x", "y", "z"), 2)),
+        ("AtMost1(a,b,c)", C('AtMost', None, it("a", "b", "c"), 1)), ("AtMost2(a,b,c)", C('AtMost', None, it("a", "b", "c"), 2)),
+        ("AtMost2(x,y,z)", C('AtMost', None, it("x", "y", "z"), 2)),
         ("All(a,x)", C('All', None, it("a", "x"))),
         ("a->x", C('Imply', None, [L("a"), L("x")])),
         ("All(a,b)->x", C('Imply', None, [C('All', None, it("a", "b")), L("x")])),
